@@ -429,6 +429,7 @@ func worker(args []string) {
 	for c := int64(i); c < total; c += int64(wn) {
 		runCase(run, c, base)
 	}
+	run.MarkComplete()
 	if err := run.ExportTo(out); err != nil {
 		fmt.Println("export failed:", err)
 		os.Exit(1)
